@@ -1,7 +1,7 @@
 (* C20 — first-match selection and "no leak": what a node gets depends only on the entries
    that select it, and among those only on the first. *)
 From Coq Require Import List ZArith Bool Lia.
-From Verif Require Import C20.Model C20.Spec C20.Proofs_Overlay C20.Proofs_History.
+From Verif Require Import C20.Model C20.Spec C20.Proofs_Overlay C20.Proofs_History C20.Proofs_Strict.
 Import ListNotations.
 Open Scope Z_scope.
 
@@ -78,71 +78,162 @@ Proof.
 Qed.
 
 (* ---------- no leak ---------- *)
-(* a section as seen by node [ls]: all entries that do not select it are deleted *)
-Definition restrict_sec (ls : labels) (s : section_in) : section_in :=
+(* a section with every entry deleted that does not satisfy [P] *)
+Definition restrict_sec (P : entry -> bool) (s : section_in) : section_in :=
   match s with
-  | SValue c es => SValue c (filter (selecting ls) es)
+  | SValue c es => SValue c (filter P es)
   | x => x
   end.
 
-Definition restrict_cmap (ls : labels) (c : cmap) : cmap := map (restrict_sec ls) c.
+Definition restrict_cmap (P : entry -> bool) (c : cmap) : cmap := map (restrict_sec P) c.
 
-Definition restrict_op (ls : labels) (o : op) : op :=
+Definition restrict_op (P : entry -> bool) (o : op) : op :=
   match o with
-  | OSync c => OSync (restrict_cmap ls c)
-  | OSame c => OSame (restrict_cmap ls c)
-  | ODelete => ODelete
-  | OOther => OOther
-  | OAvail oc => OAvail (option_map (restrict_cmap ls) oc)
+  | OSync c => OSync (restrict_cmap P c)
+  | OSame c => OSame (restrict_cmap P c)
+  | OAvail oc => OAvail (option_map (restrict_cmap P) oc)
+  | x => x
   end.
 
-Theorem spec_effective_restrict m ls sd s :
-  spec_effective m ls sd (restrict_sec ls s) = spec_effective m ls sd s.
+(* the entries that select at least one of the label sets [lss] *)
+Definition selecting_any (lss : list labels) (e : entry) : bool :=
+  existsb (fun ls => selecting ls e) lss.
+
+Lemma first_match_filter_gen ls (P : entry -> bool) :
+  (forall e, selecting ls e = true -> P e = true) ->
+  forall es, first_match ls (filter P es) = first_match ls es.
 Proof.
-  destruct s as [| |c es]; try reflexivity. simpl. unfold node_layer.
-  rewrite first_match_filter. reflexivity.
+  intros HP. induction es as [|e es IH]; [reflexivity|]. simpl.
+  destruct (selects ls (e_sel e)) eqn:E.
+  - rewrite (HP e E). simpl. rewrite E. reflexivity.
+  - destruct (P e); simpl; [rewrite E|]; assumption.
 Qed.
 
-Lemma eff_syncs_restrict ls : forall ops a inf,
-  eff_syncs a (option_map (restrict_cmap ls) inf) (map (restrict_op ls) ops)
-  = map (option_map (restrict_cmap ls)) (eff_syncs a inf ops).
+Theorem spec_effective_restrict m ls P sd s :
+  (forall e, selecting ls e = true -> P e = true) ->
+  spec_effective m ls sd (restrict_sec P s) = spec_effective m ls sd s.
+Proof.
+  intros HP. destruct s as [| |c es]; try reflexivity. simpl. unfold node_layer.
+  rewrite (first_match_filter_gen ls P HP). reflexivity.
+Qed.
+
+Lemma eff_syncs_restrict P : forall ops a inf,
+  eff_syncs a (option_map (restrict_cmap P) inf) (map (restrict_op P) ops)
+  = map (option_map (restrict_cmap P)) (eff_syncs a inf ops).
 Proof.
   induction ops as [|o ops IH]; intros a inf; [reflexivity|].
   cbn [map eff_syncs]. rewrite map_app.
-  replace (inf_after (option_map (restrict_cmap ls) inf) (restrict_op ls o))
-    with (option_map (restrict_cmap ls) (inf_after inf o)) by (destruct o; reflexivity).
+  replace (inf_after (option_map (restrict_cmap P) inf) (restrict_op P o))
+    with (option_map (restrict_cmap P) (inf_after inf o)) by (destruct o; reflexivity).
   rewrite IH. f_equal. destruct o; try reflexivity; destruct a; reflexivity.
 Qed.
 
-Lemma sec_in_restrict ls i oc :
-  sec_in i (option_map (restrict_cmap ls) oc) = restrict_sec ls (sec_in i oc).
+Lemma sec_in_restrict P i oc :
+  sec_in i (option_map (restrict_cmap P) oc) = restrict_sec P (sec_in i oc).
 Proof.
   destruct oc as [c|]; simpl; [|reflexivity]. unfold restrict_cmap.
-  exact (map_nth (restrict_sec ls) c SAbsent i).
+  exact (map_nth (restrict_sec P) c SAbsent i).
 Qed.
 
-Lemma last_good_restrict ls i : forall syncs,
-  last_good i (map (option_map (restrict_cmap ls)) syncs) = restrict_sec ls (last_good i syncs).
+Lemma last_good_restrict P i : forall syncs,
+  last_good i (map (option_map (restrict_cmap P)) syncs) = restrict_sec P (last_good i syncs).
 Proof.
   induction syncs as [|oc pre IH] using rev_ind; [reflexivity|].
   rewrite map_app. simpl. rewrite !last_good_snoc, sec_in_restrict, IH.
   destruct (sec_in i oc); reflexivity.
 Qed.
 
-Lemma spec_observe_restrict m sds ls ops :
-  spec_observe m sds [ls] (map (restrict_op ls) ops) = spec_observe m sds [ls] ops.
+Lemma nodes_fold_restrict P : forall ops nodes,
+  nodes_fold nodes (map (restrict_op P) ops) = nodes_fold nodes ops.
 Proof.
-  unfold spec_observe. simpl. f_equal. apply map_ext. intros [i sd]. simpl.
-  change (@None cmap) with (option_map (restrict_cmap ls) None) at 1.
-  rewrite eff_syncs_restrict, last_good_restrict. apply spec_effective_restrict.
+  unfold nodes_fold. induction ops as [|o ops IH]; intros nodes; [reflexivity|].
+  simpl. rewrite <- IH. f_equal. destruct o; reflexivity.
 Qed.
 
-(* Over ANY history of ConfigMap events: what node [ls] observes after every event is unchanged
-   if every node entry that does not select [ls] is deleted from every ConfigMap — nothing set
-   only in such entries can reach the node. *)
-Theorem no_leak_run m sds ls ops :
-  run m (mkInput sds [ls] (map (restrict_op ls) ops)) = run m (mkInput sds [ls] ops).
+Lemma set_nth_In {A} (x : A) : forall l i y, In y (set_nth i x l) -> y = x \/ In y l.
 Proof.
-  rewrite !run_refines_spec. unfold spec_run. simpl. rewrite map_length.
+  induction l as [|z l IH]; intros i y H; [destruct i; contradiction|].
+  destruct i as [|i]; simpl in H.
+  - destruct H as [H|H]; [left; congruence|right; right; assumption].
+  - destruct H as [H|H]; [right; left; assumption|].
+    destruct (IH _ _ H) as [E|E]; [left; assumption|right; right; assumption].
+Qed.
+
+(* a Node object that exists after a history occurred in it *)
+Lemma nodes_fold_values : forall ops nodes nd,
+  In (Some nd) (nodes_fold nodes ops) -> In nd (node_values nodes ops).
+Proof.
+  unfold nodes_fold, node_values.
+  induction ops as [|o ops IH]; intros nodes nd H; simpl in *.
+  - rewrite app_nil_r. apply in_flat_map. exists (Some nd). split; [assumption|left; reflexivity].
+  - apply IH in H. apply in_app_or in H. apply in_or_app. destruct H as [H|H].
+    + apply in_flat_map in H. destruct H as (x & Hx & Hnd).
+      destruct o as [c|c| | |oc| |i [n|]|i|i|i]; simpl in Hx;
+        try (left; apply in_flat_map; exists x; split; assumption).
+      * apply set_nth_In in Hx. destruct Hx as [->|Hx].
+        -- simpl in Hnd. destruct Hnd as [->|[]]. right. simpl. left. reflexivity.
+        -- left. apply in_flat_map. exists x. split; assumption.
+      * apply set_nth_In in Hx. destruct Hx as [->|Hx]; [contradiction|].
+        left. apply in_flat_map. exists x. split; assumption.
+    + right. apply in_or_app. right. assumption.
+Qed.
+
+Lemma spec_observe_restrict m sds nodes ops P :
+  (forall nd e, In nd (node_values nodes ops) -> selecting (n_labels nd) e = true -> P e = true) ->
+  spec_observe m sds nodes (map (restrict_op P) ops) = spec_observe m sds nodes ops.
+Proof.
+  intros HP. unfold spec_observe. rewrite nodes_fold_restrict.
+  apply map_ext_in. intros [nd|] Hin; [|reflexivity]. simpl. f_equal.
+  apply map_ext. intros [i sd]. simpl.
+  change (@None cmap) with (option_map (restrict_cmap P) None) at 1.
+  rewrite eff_syncs_restrict, last_good_restrict. unfold spec_effective_n. f_equal.
+  apply spec_effective_restrict. intros e. apply (HP nd). apply nodes_fold_values. assumption.
+Qed.
+
+Lemma node_values_firstn nodes ops k nd :
+  In nd (node_values nodes (firstn k ops)) -> In nd (node_values nodes ops).
+Proof.
+  unfold node_values. intros H. apply in_app_or in H. apply in_or_app.
+  destruct H as [H|H]; [left; assumption|right].
+  apply in_flat_map in H. destruct H as (o & Ho & Hnd). apply in_flat_map. exists o.
+  split; [|assumption]. rewrite <- (firstn_skipn k ops). apply in_or_app. left. assumption.
+Qed.
+
+Lemma op_loud_restrict P nodes o : op_loud nodes (restrict_op P o) = op_loud nodes o.
+Proof. destruct o; reflexivity. Qed.
+
+Lemma ops_loud_restrict P : forall ops nodes,
+  ops_loud nodes (map (restrict_op P) ops) = ops_loud nodes ops.
+Proof.
+  induction ops as [|o ops IH]; intros nodes; [reflexivity|].
+  simpl. rewrite op_loud_restrict. f_equal.
+  replace (nodes_after nodes (restrict_op P o)) with (nodes_after nodes o) by (destruct o; reflexivity).
+  apply IH.
+Qed.
+
+Lemma in_scope_restrict P sds nodes strict ops :
+  in_scope (mkInput sds nodes strict (map (restrict_op P) ops)) = in_scope (mkInput sds nodes strict ops).
+Proof.
+  unfold in_scope, wf_strict. cbn [in_strict in_ops in_nodes]. f_equal.
+  destruct ops as [|o ops]; [reflexivity|].
+  change (map (restrict_op P) (o :: ops)) with (restrict_op P o :: map (restrict_op P) ops).
+  rewrite <- (ops_loud_restrict P (o :: ops) nodes).
+  destruct o; reflexivity.
+Qed.
+
+(* Over ANY history of events in scope (ConfigMap events, node label changes, restarts, ...; every
+   node reconciled after every event, or only what the handlers enqueue): what the nodes are
+   delivered after every event is unchanged if every node entry that selects none of the label sets a
+   node ever carries is deleted from every ConfigMap — nothing set only in such entries can reach any
+   of these nodes. *)
+Theorem no_leak_run m sds nodes strict ops :
+  in_scope (mkInput sds nodes strict ops) = true ->
+  let P := selecting_any (map n_labels (node_values nodes ops)) in
+  run m (mkInput sds nodes strict (map (restrict_op P) ops)) = run m (mkInput sds nodes strict ops).
+Proof.
+  intros Hs P. rewrite !run_refines_spec by (rewrite ?in_scope_restrict; assumption).
+  unfold spec_run. simpl. rewrite map_length.
   apply map_ext. intros k. rewrite firstn_map. apply spec_observe_restrict.
+  intros nd e Hnd Hsel. unfold P, selecting_any. apply existsb_exists.
+  exists (n_labels nd). split; [|assumption]. apply in_map. eapply node_values_firstn; eassumption.
 Qed.
